@@ -537,6 +537,11 @@ fn packets(cx: &Ctx) {
     check_frame(cx, "StatusRequest", 0x00, status_in::StatusRequestPacket, &[]);
 
     // ---- login clientbound
+    // the reason of a login Disconnect is a JSON text component, for which the protocol allows 262144 UTF-16 units
+    // (again up to three times as many bytes)
+    for s in ["a".repeat(262_144), "\u{20ac}".repeat(90_000), "\u{20ac}".repeat(262_144), "\u{1f600}".repeat(131_072), format!("{{\"text\":\"{}\"}}", "\u{e9}".repeat(200_000))] {
+        check_packet(cx, "LoginDisconnect", 0x00, login_out::DisconnectPacket { reason: s.clone() }, &W::new().string(&s).done());
+    }
     for s in strings() {
         check_packet(cx, "LoginDisconnect", 0x00, login_out::DisconnectPacket { reason: s.clone() }, &W::new().string(&s).done());
         check_packet(cx, "LoginCookieRequest", 0x05, login_out::CookieRequestPacket { key: s.clone() }, &W::new().string(&s).done());
@@ -852,7 +857,7 @@ pub fn run(cli: Cli) -> ! {
     rep.set("exhaustive", json!(true));
     rep.set(
         "rule",
-        json!("full product of per-field boundary domains for every packet type with fields (handshake, status, login, configuration), each compared byte-for-byte with an independent encoder and decoded back, also from a reader that delivers 1, 2, 3, 7 or 64 bytes per read (1 or 4093 for bodies above 2 KiB); strings up to the protocol limit of 32767 UTF-16 units in 1-, 2-, 3- and 4-byte characters; histories [packet, a write that fails or blocks and is abandoned after every possible number of accepted bytes or a packet that cannot be encoded, packet] whose last frame must be unaffected; invalid enum ordinals; VarInt: all 2^32 (thorough) or |v|<2^18 plus +-64 around every power of two (quick); VarLong: all <=3-byte values, +-1024 around every power of two, two-group patterns, single-bit/zero patterns. Every enumerated value is distinct by construction."),
+        json!("full product of per-field boundary domains for every packet type with fields (handshake, status, login, configuration), each compared byte-for-byte with an independent encoder and decoded back, also from a reader that delivers 1, 2, 3, 7 or 64 bytes per read (1 or 4093 for bodies above 2 KiB); strings up to the protocol limit of 32767 UTF-16 units in 1-, 2-, 3- and 4-byte characters (the login Disconnect reason, a JSON text component, up to its limit of 262144 units); histories [packet, a write that fails or blocks and is abandoned after every possible number of accepted bytes or a packet that cannot be encoded, packet] whose last frame must be unaffected; invalid enum ordinals; VarInt: all 2^32 (thorough) or |v|<2^18 plus +-64 around every power of two (quick); VarLong: all <=3-byte values, +-1024 around every power of two, two-group patterns, single-bit/zero patterns. Every enumerated value is distinct by construction."),
     );
     rep.sample(json!({"packet": "Handshake", "value": {"protocol_version": 769, "server_address": "mc.example.org", "server_port": 25565, "next_state": "Transfer"},
         "reference_body_hex": hex(&W::new().varint(769).string("mc.example.org").u16(25565).varint(3).done())}));
